@@ -8,7 +8,7 @@ import proto, gen
 THEOREMS = ['C03_crossings', 'C03_crossing_rise', 'C03_crossing_decay', 'C03_value', 'C03_crossing_exists_rise', 'C03_crossing_exists_decay',
             'C03_single', 'C03_median', 'C03_centre', 'C03_within_segment', 'C03_count', 'C03_within', 'C03_counts_order', 'C03_routing']
 RULE = ("(a) EXHAUSTIVE: every flank segment over the values {-1,0,1,2} of length 2..L in both directions (multiple crossings, ties with the half height, "
-        "inverted, all-zero and flat-ended flanks), one in four also as an int8 / int16 / int32 array scaled to the limits of its type; (b) EXHAUSTIVE: every strictly alternating peak/trough index sequence on every signal over {-1,0,1} "
+        "inverted, all-zero and flat-ended flanks), one in four also as an int8 / int16 / int32 array scaled to the limits of its type, one in four also multiplied by 2^-40; (b) EXHAUSTIVE: every strictly alternating peak/trough index sequence on every signal over {-1,0,1} "
         "of length <= M (count / bias / order logic); (c) cyclepoints from find_extrema on generated signals of all families (first_extrema peak/trough/None, "
         "several boundaries); distinct = distinct (signal, peaks, troughs); non-trivial = at least one flank whose answer is not its first sample")
 ASSUMPTIONS = ["half heights (a+b)/2 are exact on the integer grids of (a) and (b); on float signals a disagreement is recorded as a float tie only when a "
@@ -80,6 +80,9 @@ def generate(ctx):
             cases.append(dict(kind='seq', sig=list(seg), peaks=[n - 1], troughs=[0]))     # rise
             cases.append(dict(kind='seq', sig=list(seg), peaks=[0], troughs=[n - 1]))     # decay
             nseg += 1
+            if nseg % 4 == 2:      # the same flank in a small physical unit (times 2^-40: an absolute tolerance anywhere would call it flat)
+                up = nseg % 8 == 2
+                cases.append(dict(kind='seq', sig=list(seg), peaks=[n - 1] if up else [0], troughs=[0] if up else [n - 1], scale=-40))
             if nseg % 4 == 0:      # the same flank as an integer-typed recording near the limits of its type
                 up = nseg % 8 == 0
                 cases.append(dict(kind='seq', sig=list(seg), peaks=[n - 1] if up else [0], troughs=[0] if up else [n - 1], dt=['int8', 'int16', 'int32'][(nseg // 4) % 3]))
@@ -117,6 +120,8 @@ def evaluate(ctx, cases):
         sig = proto.hex2arr(c['sig']) if c['kind'] == 'signal' else np.array(c['sig'], dtype=float)
         if c.get('dt'):
             sig = (np.array(c['sig']) * INT_MUL[c['dt']]).astype(c['dt'])
+        if c.get('scale'):
+            sig = sig * 2.0 ** c['scale']
         sigs.append(sig)
         args = '%s %s %s' % (proto.enc_list(sig.astype(float)), proto.enc_ints(c['peaks']), proto.enc_ints(c['troughs']))
         reqs.append('zerox.model ' + args)
@@ -135,7 +140,7 @@ def evaluate(ctx, cases):
                 judge_ok = True
         nt = impl[0] == 'ok' and any(int(m) not in set(c['peaks']) | set(c['troughs']) for m in impl[1][0] + impl[1][1])
         ctx.hist('kind', c['kind'] + ('' if spec != 'invalid-seq' else ':invalid-seq'))
-        key = (tuple(c['sig']) if c['kind'] == 'seq' else hash(tuple(c['sig'])), tuple(c['peaks']), tuple(c['troughs']), c.get('dt'))
+        key = (tuple(c['sig']) if c['kind'] == 'seq' else hash(tuple(c['sig'])), tuple(c['peaks']), tuple(c['troughs']), c.get('dt'), c.get('scale'))
         out.append(Result(c, judge_ok=judge_ok, corr_ok=corr_ok, sig=hash(key), nontrivial=nt, float_tie=tie,
                           info=dict(impl=impl, model=model, spec=spec)))
     return out
